@@ -100,8 +100,15 @@ class Git:
         return int(result.stdout.strip())
 
     def rev_parse(self, commit_symbol: str) -> Optional[str]:
+        """
+        Returns the hash of the commit that `commit_symbol` (a hash, branch,
+        tag, ...) refers to, or `None` if it does not name a commit.
+        """
+        # N.B. "^{commit}": for an annotated tag, `git rev-parse <tag>` prints
+        # the hash of the tag object, which is not the hash of the commit that
+        # the tag points to (the one stored with task output versions).
         result = subprocess.run(
-            ["git", "rev-parse", commit_symbol],
+            ["git", "rev-parse", "--verify", "--quiet", commit_symbol + "^{commit}"],
             cwd=self._project_root,
             capture_output=True,
             text=True,
